@@ -114,6 +114,13 @@ def run(ctx, chk):
     sub4 = Sub(chk, "C18/transport", lambda r: r.startswith(("C04-b/", "C04-d/")))
     rules_c04.run(ctx, sub4)
     chk.floor("read_packet framing obligations (shared with C04)", sub4.count, 5)
+    # ... and is decoded with the specified layout: a value codec that refuses legal data (an application id of 4 bytes)
+    # makes the whole status unreadable - the C03-a rows of the status-information containers
+    import rules_c03
+    sub3 = Sub(chk, "C18/layout", lambda r: r in ("C03-a/encoder-row", "C03-a/decoder-row", "C03-a/encoder-shape", "C03-a/decoder-shape"),
+               instance_filter=lambda i: any(s_ in str(i) for s_ in ("tlv::StatusInformation", "tlv::Subs", "packets::StatusInformation")))
+    rules_c03._run_own(ctx, sub3)
+    chk.floor("status-information layout rows (shared with C03-a)", sub3.count, 6)
     chk.floor("C18 obligations", len(chk.obligations), 14)
 
 
